@@ -1,5 +1,6 @@
 import Driver.Common
 import Emitter.Model.Hostile
+import Emitter.Model.Security
 namespace Driver.C09
 open Emitter Emitter.Hostile Driver
 
@@ -106,6 +107,14 @@ def step (ws : List String) (_impl : String) : Ans :=
           let m := verdict (onUnicast facts (fun _ => inner) storeOk raw) "ok"
           { m := m, s := notFatal m }
       | _, _ => bad
+  | ["chan", hex] =>
+      match bytesOfHex hex with
+      | some t =>
+          let c := Security.parseChannel t
+          let m := if c.ctype == Security.chInvalid then "type=0" else s!"type={c.ctype} levels={c.query.length} opts={c.options.length}"
+          -- the property: the parser answers, and what it builds is bounded by the text it was given
+          { m := m, s := if c.options.length ≤ t.length && c.query.length ≤ t.length then "=" else "bounded-by-input" }
+      | none => bad
   | ["survey", limit] =>
       match limit.toInt? with
       | some l => if l > 1000000 then refused else { m := verdict (contain facts.onUnicastRecovers storeOk) "ok" }
